@@ -14,13 +14,19 @@ What is real
   * cache files are written the way eventmgr._cache writes them
     (fs.write_safe with a dot-prefixed temporary + os.replace), .ready the way
     eventmgr._cache_notify does;
-  * container names: appcfg.gen_uniqueid / manifest_unique_name on the real
-    cache file (inode, ctime, instance id), appcfg.app_name for the way back;
+  * appcfg.configure.configure(): the REAL function - appcfg.manifest.load on a
+    schema-valid manifest, gen_uniqueid / app_unique_name on the real cache file
+    (inode, ctime, instance id), supervisor.create_service (real s6 service
+    directory with data/), the copy of the event file as data/manifest.yml,
+    app.json, the "configured" trace event - so that whatever it does to the
+    event file or to apps/<unique>/ is part of the recorded state;
+  * appcfg.app_name for the way back from container names;
   * monitor.MonitorContainerCleanup.execute, cleanup.Cleanup.invoke,
     appcfg.abort.flag_aborted.
-What is stubbed (out of the property's scope)
-  * appcfg.configure.configure: creates apps/<unique name>/data and copies the
-    manifest, returns None when the cache file is gone (as the real one does);
+What is stubbed (cannot run here / out of the property's scope)
+  * inside configure(): the runtime plugin class (runtime specific manifest
+    processing needs TREADMILL_ID, node.json and installed entry points) and
+    subproc.resolve (paths of executables written into run scripts);
   * supervisor.control_svscan (s6), the runtime's finish() (removes the
     container directory, as runtime_base.finish ends), abort reporting.
 
@@ -34,7 +40,6 @@ container not supervised ...) is dropped; the effective history is returned.
 Trace lines carry the model's event names (Deliver -> OnCreated/OnDeleted/
 OnModified [name]) and `post`, the projected state.
 """
-import errno
 import io
 import logging
 import os
@@ -47,11 +52,16 @@ core.ensure_repo_on_path()
 from treadmill import appcfg  # noqa: E402
 from treadmill import appcfgmgr  # noqa: E402
 from treadmill import cleanup as tm_cleanup  # noqa: E402
+from treadmill import context  # noqa: E402
 from treadmill import dirwatch  # noqa: E402
 from treadmill import fs  # noqa: E402
 from treadmill import monitor  # noqa: E402
 from treadmill import utils  # noqa: E402
 from treadmill.appcfg import abort as app_abort  # noqa: E402
+
+# manifest.load() stamps the cell and the ZooKeeper url into the manifest
+context.GLOBAL.cell = 'verifcell'
+context.GLOBAL.zk.url = 'zookeeper://verif@localhost:2181'
 
 logging.getLogger('treadmill').addHandler(logging.NullHandler())
 logging.getLogger('treadmill').propagate = False
@@ -81,25 +91,30 @@ def model_name(real):
     return app
 
 
-def _stub_configure(tm_env, event, _runtime, _runtime_param=None):
-    """What appcfg.configure.configure does to the tree, nothing else."""
-    try:
-        uniqueid = appcfg.gen_uniqueid(event)
-    except (IOError, OSError):
-        return None                       # "No event to load": file is gone
-    uniq_name = appcfg.manifest_unique_name(
-        {'name': os.path.basename(event), 'uniqueid': uniqueid})
-    container_dir = os.path.join(tm_env.apps_dir, uniq_name)
-    data_dir = os.path.join(container_dir, 'data')
-    fs.mkdir_safe(data_dir)
-    try:
-        shutil.copyfile(event, os.path.join(data_dir, 'manifest.yml'))
-    except IOError as err:
-        if err.errno == errno.ENOENT:
-            shutil.rmtree(container_dir)
-            return None
-        raise
-    return container_dir
+MANIFEST = """proid: proid
+environment: dev
+cpu: 10%
+memory: 100M
+disk: 100M
+services:
+- name: web
+  command: /bin/sleep 5
+  restart: {limit: 0, interval: 60}
+endpoints: []
+"""
+
+
+class _StubRuntimeCls:
+    """Stands in for the runtime plugin class in configure.load_runtime_manifest:
+    the runtime specific manifest processing (system services, keytabs, ... -
+    needs TREADMILL_ID, node.json, installed plugins) is the only part of
+    appcfg.configure.configure() that does not run here."""
+    name = 'linux'
+
+    @staticmethod
+    def manifest(_tm_env, manifest):
+        for svc in manifest['services']:
+            svc.setdefault('environ', [])
 
 
 class _StubRuntime:
@@ -116,7 +131,12 @@ class Node:
     def __init__(self):
         self.root = tlc.scratch('verif-c13-')
         self._patches = [
-            mock.patch('treadmill.appcfg.configure.configure', _stub_configure),
+            # appcfg.configure.configure() is the REAL one (manifest.load, unique
+            # name, supervisor.create_service, copy of the event as manifest.yml,
+            # app.json, trace event); only the runtime plugin lookup and the
+            # lookup of executables are replaced
+            mock.patch('treadmill.runtime.get_runtime_cls', lambda _name: _StubRuntimeCls),
+            mock.patch('treadmill.subproc.resolve', lambda exe: '/opt/fake/' + exe),
             mock.patch('treadmill.supervisor.control_svscan', mock.Mock()),
             mock.patch('treadmill.appcfg.abort.report_aborted', mock.Mock()),
             mock.patch('treadmill.runtime.get_runtime',
@@ -135,7 +155,8 @@ class Node:
         try:
             self._start_manager()
             env = self.mgr.tm_env
-            for d in (env.cache_dir, env.apps_dir, env.running_dir, env.cleanup_dir):
+            for d in (env.cache_dir, env.apps_dir, env.running_dir, env.cleanup_dir,
+                      env.app_events_dir):
                 os.makedirs(d)
             self._watch()
         except Exception:
@@ -264,7 +285,7 @@ class Node:
         env = self.mgr.tm_env
         path = os.path.join(env.cache_dir, real_name(a))
         # eventmgr.EventMgr._cache
-        fs.write_safe(path, lambda f: f.write('proid: proid\n'), prefix='.%s-' % real_name(a),
+        fs.write_safe(path, lambda f: f.write(MANIFEST), prefix='.%s-' % real_name(a),
                       mode='w', permission=0o644)
         self.keep_fds.append(os.open(path, os.O_RDONLY))
         u = appcfg.eventfile_unique_name(path)
